@@ -157,6 +157,10 @@ func TestProp(t *testing.T) {
 		c := Case{EType: et, Usage: kgen.Usage(t)}
 		c.Key = hex.EncodeToString(kgen.Key(t, et, "key"))
 		n := kgen.BoundaryLen(t, 64)
+		if rapid.IntRange(0, 9).Draw(t, "longer") == 0 {
+			// beyond the quantifier's 0..64 (the statement says every input): ticket-sized and multi-KiB messages
+			n = rapid.SampledFrom([]int{130, 200, 257, 600, 1500, 4099}).Draw(t, "longlen")
+		}
 		c.Plain = hex.EncodeToString(kgen.Bytes(t, "plain", n))
 		c.Conf = hex.EncodeToString(kgen.Bytes(t, "conf", ref.ConfounderLen(et)))
 		clen := ref.EncryptedLen(et, n)
